@@ -8,6 +8,8 @@ import (
 	"time"
 
 	"github.com/failsafe-go/failsafe-go"
+	"github.com/failsafe-go/failsafe-go/bulkhead"
+	"github.com/failsafe-go/failsafe-go/fallback"
 	"github.com/failsafe-go/failsafe-go/hedgepolicy"
 	"github.com/failsafe-go/failsafe-go/retrypolicy"
 	"github.com/failsafe-go/failsafe-go/timeout"
@@ -21,7 +23,8 @@ import (
 // execution had not completed, so the caller must get the cancellation cause.
 func c08AfterHedgedRound(rep *vk.Report, idx int) {
 	r := vk.Rng(rep.Seed, "C08h", idx)
-	source := vk.Pick(r, "ctx", "ctx-cause", "async")
+	source := vk.Pick(r, "ctx", "ctx-cause", "async", "deadline", "deadline")
+	inner := vk.Pick(r, "", "", "retry", "fallback", "bulkhead") // a policy inside the hedge, which sees its attempt being cancelled as a loser
 	micro := time.Duration(r.IntN(600)) * time.Microsecond
 	maxHedges := 1 + r.IntN(2)
 	cancelMatching := r.IntN(3) == 0 // with explicit cancel conditions the failing result is accepted only as the final one
@@ -53,10 +56,24 @@ func c08AfterHedgedRound(rep *vk.Report, idx int) {
 	case "ctx-cause":
 		c2, c := context.WithCancelCause(ctx)
 		ctx, cancel = c2, func() { c(errCustomCause) }
+	case "deadline":
+		// expires on its own inside the 3s retry delay (the round takes a few ms)
+		var c context.CancelFunc
+		ctx, c = context.WithTimeout(ctx, 80*time.Millisecond)
+		defer c()
 	}
 	defer cancel()
 	var hedges int
-	ex := failsafe.NewExecutor[int](rp, hb.Build()).WithContext(ctx).OnDone(func(e failsafe.ExecutionDoneEvent[int]) { hedges = e.Hedges() })
+	pols := []failsafe.Policy[int]{rp, hb.Build()}
+	switch inner {
+	case "retry":
+		pols = append(pols, retrypolicy.Builder[int]().WithMaxRetries(1).Build())
+	case "fallback":
+		pols = append(pols, fallback.BuilderWithResult[int](-1).HandleErrors(errE3).Build())
+	case "bulkhead":
+		pols = append(pols, bulkhead.With[int](8))
+	}
+	ex := failsafe.NewExecutor[int](pols...).WithContext(ctx).OnDone(func(e failsafe.ExecutionDoneEvent[int]) { hedges = e.Hedges() })
 	async := source == "async" || r.IntN(3) == 0
 	var ar failsafe.ExecutionResult[int]
 	arReady := make(chan struct{})
@@ -67,10 +84,12 @@ func c08AfterHedgedRound(rep *vk.Report, idx int) {
 			return // the retry delay was never reached (not judged below)
 		}
 		time.Sleep(micro)
-		if source == "async" {
+		switch source {
+		case "async":
 			<-arReady
 			ar.Cancel()
-		} else {
+		case "deadline":
+		default:
 			cancel()
 		}
 	}()
@@ -91,12 +110,15 @@ func c08AfterHedgedRound(rep *vk.Report, idx int) {
 		return
 	}
 	want := context.Canceled
-	if source == "async" {
+	switch source {
+	case "async":
 		want = failsafe.ErrExecutionCanceled
+	case "deadline":
+		want = context.DeadlineExceeded
 	}
-	cs := map[string]any{"source": source, "micro_ns": int64(micro), "max_hedges": maxHedges, "cancel_conditions": cancelMatching, "async": async}
+	cs := map[string]any{"source": source, "inside_hedge": inner, "micro_ns": int64(micro), "max_hedges": maxHedges, "cancel_conditions": cancelMatching, "async": async}
 	if !errors.Is(err, want) {
-		rep.Violate(idx, "C08/wrong-result-after-hedged-round", fmt.Sprintf("Retry(Hedge(fn)): first round hedged (%d hedges started) and failed, cancellation (%s) arrived %v into the 3s retry delay: caller received %v, want %v (took %v)", hedges, source, micro, err, want, took), cs)
+		rep.Violate(idx, "C08/wrong-result-after-hedged-round", fmt.Sprintf("Retry(Hedge(%s(fn))): first round hedged (%d hedges started) and failed, cancellation (%s) arrived in the 3s retry delay: caller received %v, want %v (took %v)", inner, hedges, source, err, want, took), cs)
 		return
 	}
 	if took >= c08LongDelay {
@@ -105,7 +127,7 @@ func c08AfterHedgedRound(rep *vk.Report, idx int) {
 	}
 	if hedges > 0 {
 		rep.Count("cancelled_in_retry_delay_after_hedged_round", 1)
-		rep.Distinct(fmt.Sprintf("afterhedge|%s|%d|%v|%v", source, maxHedges, cancelMatching, async))
+		rep.Distinct(fmt.Sprintf("afterhedge|%s|%s|%d|%v|%v", source, inner, maxHedges, cancelMatching, async))
 	}
 }
 
